@@ -174,7 +174,7 @@ def run_for_property(prop, tier, scratch, seed=0, only=None):
             jobs = min(len(todo), int(os.environ.get("VERIF_KANI_JOBS", "8")))
             cmd = kani_cmd([h["name"] for h in todo], jobs)
             cmd_s = " ".join(cmd)
-            timeout = int(os.environ.get("VERIF_KANI_TIMEOUT", "3000"))
+            timeout = int(os.environ.get("VERIF_KANI_TIMEOUT", "7200"))
             try:
                 pr = subprocess.run(cmd, cwd=ov, env=env, capture_output=True, text=True, timeout=timeout)
             except subprocess.TimeoutExpired:
